@@ -120,6 +120,12 @@ def run(report, tier, seed):
             for dv in DEF_VIOLATIONS:
                 for pl in PLACEMENTS + ["main-reversed", "main-with-protocol-only-import"]:
                     _def_case(report, ybin, sc, seed, b, pkg, dv, pl, rr)
+            # a type written in a pattern of a computed field's !switch is a type position like any other
+            for (rule, bad) in SWITCH_PATTERN_TYPES:
+                for form in ("type-pattern", "declaration-pattern"):
+                    for target in ("union", "optional"):
+                        for pl in (PLACEMENTS if not quick or b == 0 else PLACEMENTS[:1]):
+                            _switch_pattern_case(report, ybin, sc, seed, b, pkg, rule, bad, form, target, pl, rr)
 
 
 def _site_defs(kind, bad):
@@ -232,6 +238,30 @@ def _type_case(report, ybin, sc, seed, b, pkg, v, w, site, placement, rr):
     for k in (f"rule.{rule}", f"wrapper.{wname}", f"site.{site}", f"placement.{placement}"):
         report.count(k)
     _judge(report, ok, text, d, wdir, wfile, f"{rule}:{wname}:{site}:{placement}", {"seed": seed, "base": b, "rule": rule, "wrapper": wname, "site": site, "placement": placement})
+
+
+SWITCH_PATTERN_TYPES = [("unknown-type", "NoSuchType"), ("unknown-type-in-vector", "NoSuchType*"), ("unknown-generic", "NoSuchGeneric<int>"),
+                        ("unknown-type-in-generic-argument", "ZzBox<NoSuchType>"), ("foreign-type-parameter", "ZzQ"), ("generic-arity-on-primitive", "int<float>"),
+                        ("generic-without-arguments-count", "ZzBox<int, int>")]
+
+
+def _switch_pattern_case(report, ybin, sc, seed, b, pkg, rule, bad, form, target, placement, rr):
+    box = {"kind": "record", "name": "ZzBox", "tparams": ["T"], "fields": [("v", ("tparam", "T"))]}
+    other = {"kind": "record", "name": "ZzOther", "tparams": ["ZzQ"], "fields": [("q", ("tparam", "ZzQ"))]}
+    pat = f"{bad}: 2" if form == "type-pattern" else f"{bad} zzv: 2"
+    if target == "union":
+        field = ("u", ("union", False, [(None, P("int32")), (None, P("float32"))]))
+        text = f"\n      !switch u:\n        int: 1\n        {pat}\n        _: 3"
+    else:
+        field = ("u", ("opt", P("int32")))
+        text = f"\n      !switch u:\n        {pat}\n        _: 3"
+    defs = [box, other, {"kind": "record", "name": "ZzHost", "tparams": [], "fields": [("ok", P("int32")), field], "computed": [("c", text)]}]
+    p, old, wdir, wfile = _place(copy.deepcopy(pkg), defs, placement, rr)
+    name = f"sw-{rule}-{form}-{target}-{placement}"
+    ok, out, d = _validate(ybin, sc.path(f"b{b}"), name, p, old)
+    report.case(distinct_key=(b, "switch-pattern", rule, form, target, placement))
+    report.count("site.switch-" + form)
+    _judge(report, ok, out, d, wdir, wfile, f"{rule}:{form}:{target}:{placement}", {"seed": seed, "base": b, "rule": rule, "pattern": pat, "switch_over": target, "placement": placement})
 
 
 def _cycle(kind, imp_ns):
